@@ -336,6 +336,14 @@ where
         // are all woken on every new write opportunity.
         self.notifier_read.wake_read_stream(id);
 
+        // If the dropped substream is the one whose full buffer currently
+        // blocks reading (`MaxBufferBehaviour::Block`), nobody can drain
+        // that buffer any more: unblock reading new frames.
+        if self.blocking_stream == Some(id) {
+            self.blocking_stream = None;
+            ArcWake::wake_by_ref(&self.notifier_read);
+        }
+
         // Remove the substream, scheduling pending frames as necessary.
         match self.substreams.remove(&id) {
             None => {}
